@@ -86,14 +86,15 @@ class WireParser {
   bool crcGood = false;
   int attempt = 1;
   bool selfDst = false;
+  bool selfGood = false;  // a CRC-correct self-addressed first attempt awaits its acknowledge
   Telegram cur;
 
   void reset(St s) { st = s; part.clear(); crc = 0; esc = false; crcPos = false; crcGood = false; selfDst = false; }
-  void timeout() { reset(WAIT_SYN); dontCare = false; attempt = 1; }
+  void timeout() { reset(WAIT_SYN); dontCare = false; selfGood = false; attempt = 1; }
 
   // state as bytes for hashing
   void fingerprint(std::string* o) const {
-    o->push_back((char)st); o->push_back((char)(dontCare | (esc << 1) | (crcPos << 2) | (crcGood << 3) | (attempt << 4)));
+    o->push_back((char)st); o->push_back((char)(dontCare | (esc << 1) | (crcPos << 2) | (crcGood << 3) | (attempt << 4) | (selfGood << 6)));
     o->push_back((char)crc); o->push_back((char)(part.size() | (selfDst << 7)));
     o->append((const char*)part.data(), part.size());
     o->push_back((char)cur.master.size()); o->append((const char*)cur.master.data(), cur.master.size());
@@ -101,7 +102,7 @@ class WireParser {
 
   // returns true if a telegram became complete with this symbol (in *out)
   bool symbol(uint8_t v, Telegram* out) {
-    if (v == SYN) { reset(IDLE); dontCare = false; attempt = 1; return false; }
+    if (v == SYN) { reset(IDLE); dontCare = false; selfGood = false; attempt = 1; return false; }
     switch (st) {
       case WAIT_SYN: return false;
       case IDLE:
@@ -111,6 +112,11 @@ class WireParser {
       case M: return collect(v, true, out);
       case S: return collect(v, false, out);
       case M_ACK:
+        if (selfGood) {
+          selfGood = false;
+          if (v == NAK && attempt == 1) { dontCare = true; reset(M); attempt = 2; return false; }
+          reset(WAIT_SYN); return false;
+        }
         if (v == ACK && crcGood) {
           if (isMaster(cur.master[1])) { *out = cur; reset(WAIT_SYN); return !dontCare; }
           reset(S); attempt = 1; return false;
@@ -149,8 +155,14 @@ class WireParser {
         // a CRC-correct self-addressed telegram is invalid.  A CRC-wrong first attempt is a corrupted
         // transmission: the statement does not fix what a NAK-ed corrupted attempt may look like, so
         // the remainder up to the next SYN is don't-care.
-        if (crcGood || attempt == 2) { reset(WAIT_SYN); return false; }
-        dontCare = true;
+        if (attempt == 2) { reset(WAIT_SYN); return false; }
+        if (crcGood) {
+          // never a message itself (an ACK or anything else ends it); when it is NAK-ed it was a first attempt like
+          // any other corrupted one and what follows up to the next SYN is don't-care as well
+          selfGood = true;
+        } else {
+          dontCare = true;
+        }
       }
       if (master) {
         cur.master = part;
